@@ -130,3 +130,28 @@ def install_oracle(E):
         calls.append((args, var)); st.aux['oracle'] = calls
         return z3.ZeroExt(31, var)
     E.stubs['vf_oracle'] = vf_oracle
+
+# ------------------------------------------------------------------ oracle as uninterpreted functions (C02: the reference names the same function)
+_ORC = {}
+def orc_app(kind, a, b, c, sv):
+    """Bool term ORACLE_kind(a, b, c, sv) for byte lists a, b, c (lengths are part of the function's identity)"""
+    key = (kind, len(a), len(b), len(c), sv)
+    n = 8 * (len(a) + len(b) + len(c))
+    F = _ORC.get(key)
+    if F is None:
+        F = z3.Function('orc_%d_%d_%d_%d_%d' % key, z3.BitVecSort(max(n, 1)), z3.BoolSort()); _ORC[key] = F
+    arg = cat(list(a) + list(b) + list(c), 8) if n else z3.BitVecVal(0, 1)
+    return F(arg)
+
+def install_oracle_uf(E):
+    def vf_oracle(E, st, fr, I, A):
+        kind, a, alen, b, blen, c, clen, sv = A
+        for k, x in enumerate(A):
+            if is_sym(x):
+                args = [(at, av, info) for (at, av, info) in I['args'] if av is not None]
+                return ('forks', E.fork_arg(st, fr, I, args, k, 'oracle argument'))
+        aa = rd(E, st, a, alen) if alen else []; bb = rd(E, st, b, blen) if blen else []; cc = rd(E, st, c, clen) if clen else []
+        t = orc_app(kind, aa, bb, cc, sv)
+        calls = list(st.aux.get('oracle', [])); calls.append(((kind, tuple(aa), tuple(bb), tuple(cc), sv), t)); st.aux['oracle'] = calls
+        return b2i(t)
+    E.stubs['vf_oracle'] = vf_oracle
